@@ -301,6 +301,21 @@ theorem tracer_invisible_optimism {ops : EnvOps T} {io : InterpOps T} {dep : T.E
     dropW ((wrap ops (tracer3155 T ops) m).exec fuel inp (e, w)) = m.exec fuel inp e :=
   inspected_eq_plain_mod (tracer_observing T ops) ops m (optimism_respects hm) fuel inp e w
 
+/-! ## The property, for the three inspectors at once -/
+
+/-- C28 on the model: on every frame machine whose four outcome consumers are the mainnet handlers
+(instruction table, `call` / `create` / `eofcreate`, the `*_return` handlers and `take_error` arbitrary), for
+every first input, context, fuel and leftover wrapper state, the run inspected by `NoOpInspector`, by
+`GasInspector` and by `TracerEip3155` each return exactly what the run without the register returns. -/
+theorem three_inspectors_invisible {ops : EnvOps T} {io : InterpOps T} {m : Machine T T.E}
+    (hm : MainnetConsumers ops io m) (fuel : Nat) (inp : FirstInput T) (e : T.E) :
+    (∀ w : WState T Unit, dropW ((wrap ops (noop T) m).exec fuel inp (e, w)) = m.exec fuel inp e) ∧
+    (∀ w : WState T GasInsp, dropW ((wrap ops (gasInspector T) m).exec fuel inp (e, w)) = m.exec fuel inp e) ∧
+    (∀ w : WState T Tracer, dropW ((wrap ops (tracer3155 T ops) m).exec fuel inp (e, w)) = m.exec fuel inp e) :=
+  ⟨fun w => noop_inspected_eq_plain ops m fuel inp e w,
+   fun w => gas_inspector_invisible_because_error_gas_unread hm fuel inp e w,
+   fun w => tracer_invisible_because_error_gas_unread hm fuel inp e w⟩
+
 /-! ## The condition on the handlers is necessary for GasInspector / the tracer -/
 
 /-- COUNTEREXAMPLE to the unconditional statement for `GasInspector`: on the machine `leaky` (first call halts
